@@ -28,10 +28,10 @@ LEVEL_TEXT = ("Machine-checked proof (Coq, closed under the global context) over
 LEVEL_NOTE = ("PARTIAL by nature: RSA/ECDSA/Ed25519 signature verification itself (cryptography, nacl), UTF-8 decoding "
               "and key derivation are oracles - 'fails for other data / altered signature / different key' is proved "
               "only as 'True only if the library accepted' and tested on real keys.  Keys are abstract tokens in the "
-              "model.  RSAKey.HASHES and the curve names are transcribed by hand in Model/C35.v (checked against the "
-              "classes each run).  Trusted: Coq kernel + vm_compute, the hand-written model, this harness and its "
+              "model.  RSAKey.HASHES, the key / curve names and the certificate suffix are regenerated from the source "
+              "by gen/c35.py every run (fail-closed AST translator) and cross-checked against the live classes.  Trusted: Coq kernel + vm_compute, the hand-written model, gen/c35.py, this harness and its "
               "recording shims around the library objects.")
-TECHNIQUE = "Coq proof over wrapper model with library oracles + vm_compute differential correspondence with recorded library calls + real-key oracle"
+TECHNIQUE = "Coq proof over wrapper model (name tables AST-translated by gen/c35.py) with library oracles + vm_compute differential correspondence with recorded library calls + real-key oracle"
 
 EXC = [("SSHException", 1), ("KeyError", 7), ("IndexError", 8), ("UnicodeDecodeError", 11), ("ValueError", 9),
        ("TypeError", 10), ("error", 12), ("AssertionError", 13), ("AttributeError", 15)]
@@ -295,6 +295,10 @@ def build(name, blob):
     return m.asbytes()
 
 
+def sstr_(b):
+    return len(b).to_bytes(4, "big") + b
+
+
 def mp(n):
     """mpint payload (two's complement, minimal) incl. negative values."""
     if n == 0:
@@ -419,7 +423,7 @@ def run(ctx):
                 "messages (incl. empty) and, for RSA, all six algorithm names; verification of the genuine signature under "
                 "every counterpart, under other data, under other keys of the class, with bits flipped inside the signature "
                 "value, and ~60 structural mutations (truncation, extension, any-bit flips, 18 algorithm names incl. invalid "
-                "UTF-8, lying length prefixes, wrong blob lengths, RSA zero padding variants, over-long RSA blobs (genuine signature with 1..37 leading zero bytes / other bytes in front / bytes behind: must be rejected), ECDSA negative / zero / oversized "
+                "UTF-8, lying length prefixes, wrong blob lengths, RSA zero padding variants, signature/data boundary splices (sig(prefix||data)||prefix against data, sig(data)||data against the empty message, for every class), over-long RSA blobs (genuine signature with 1..37 leading zero bytes / other bytes in front / bytes behind: must be rejected), ECDSA negative / zero / oversized "
                 "/ non-minimal / truncated inner integers).  Every call is one case; non-trivial = distinct")
     ctx.trusted += ["recording shims around the library objects (PubProxy/PrivProxy, VerifyKey.verify patch) in this harness",
                     "cryptography / PyNaCl signature verification and key derivation (oracles)"]
@@ -519,6 +523,24 @@ def run(ctx):
                                     one(o2, lab2, k["label"], data, mb, kind, expect=False)
                                 continue
                             code = one(o, lab, k["label"], data, mb, kind, expect=expect)
+                    if alg is None:
+                        # signature / data boundary: a blob made of sig(prefix || data) followed by prefix is an
+                        # altered signature over OTHER data and must not verify for data; sig(data) || data must
+                        # not verify for the empty message (a library "combined" signed-message form would)
+                        for prefix in [bytes(rng.randrange(256) for _ in range(rng.randrange(1, 40))), b"\x00", data or b"p"]:
+                            g3 = signer.sign_ssh_data(prefix + data).asbytes()
+                            nm3, bl3 = parts(g3)
+                            for lab, o in objs[:3]:
+                                one(o, lab, k["label"], data, build(nm3, bl3 + prefix), "splice-sig-then-prefix", expect=False)
+                                one(o, lab, k["label"], data, build(nm3, bl3), "signature-of-prefixed-data", expect=False)
+                            if ci == 1:
+                                # the same splice inside the inner (r, s) encoding
+                                one(objs[0][1], objs[0][0], k["label"], data, build(nm3, bl3 + sstr_(prefix)), "splice-sig-then-prefix", expect=False)
+                        if data:
+                            for lab, o in objs[:3]:
+                                one(o, lab, k["label"], b"", build(name, blob + data), "splice-sig-then-data-vs-empty", expect=False)
+                                one(o, lab, k["label"], data[len(data) // 2:], build(name, blob + data[:len(data) // 2]),
+                                    "splice-sig-then-half-data", expect=False)
                     if ci == 0 and alg is None and data:
                         # PuTTY-style: a genuine signature whose leading zero byte(s) were dropped must still verify
                         for t in range(4000):
@@ -546,13 +568,16 @@ def run(ctx):
             rest += lst[2:]
         rng.shuffle(rest)
         vcases = keep + rest[:max(0, cap - len(keep))]
-    bad = ctx.model_mismatches("run_verify", "(Z * Z * bool * bool * Z * list Z)", [(i, e) for i, e, _ in vcases], shard=80)
-    for i in bad[:3]:
-        ctx.disagree("verify_ssh_sig differs from the model (result :: key half :: library argument)",
-                     case=vcases[i][2], impl=vcases[i][1][:40])
-    bad = ctx.model_mismatches("run_sign", "(Z * Z * list Z * list Z * Z * Z)", [(i, e) for i, e, _ in scases])
-    for i in bad[:3]:
-        ctx.disagree("sign_ssh_data message differs from the model", case=scases[i][2], impl=scases[i][1][:40])
+    try:
+        bad = ctx.model_mismatches("run_verify", "(Z * Z * bool * bool * Z * list Z)", [(i, e) for i, e, _ in vcases], shard=80)
+        for i in bad[:3]:
+            ctx.disagree("verify_ssh_sig differs from the model (result :: key half :: library argument)",
+                         case=vcases[i][2], impl=vcases[i][1][:40])
+        bad = ctx.model_mismatches("run_sign", "(Z * Z * list Z * list Z * Z * Z)", [(i, e) for i, e, _ in scases])
+        for i in bad[:3]:
+            ctx.disagree("sign_ssh_data message differs from the model", case=scases[i][2], impl=scases[i][1][:40])
+    except Exception as e:   # noqa: a model / translator failure must not hide the oracle's findings
+        ctx.disagree("model evaluation failed: %s" % str(e)[-400:])
 
 
 def replay(ctx, rep):
